@@ -819,9 +819,13 @@ def _model_shard(shard):
         {"targets_covered": set(), "model_outcomes": set(), "zero_draw_targets": set()}, []
     try:
         targets, sites, errors = all_targets()
-        if shard["target"] not in targets:          # the model was removed / renamed: reported by the "targets" shard
+        try:
+            _resolve(shard["target"])
+        except Exception:  # noqa: BLE001   the model was removed / renamed: recorded by the "targets" shard
             return {"violations": [], "counts": counts, "sets": {k: sorted(v) for k, v in sets.items()}, "samples": []}
-        mine = _model_cases(shard["tier"], shard["target"], targets[shard["target"]])
+        # a fixture whose function is no longer recognised as a seeding site (e.g. it now manipulates the generator by
+        # hand) is still executed: the generator state must be restored whatever the function does ("state-only")
+        mine = _model_cases(shard["tier"], shard["target"], targets.get(shard["target"], "state-only"))
         seen = set()
         for c in mine:
             v, cnt, outcome = _model_case(c, td)
@@ -897,6 +901,9 @@ def tree_sig(tree, only=None):
     return h.hexdigest()[:16]
 
 
+EXTRA: list = []          # violations found inside do_run (collected by the caller)
+
+
 def do_run(mode, sub, pipeline_seed, td, islands=1, fault=None):
     """One run through pyxel.run_mode; returns (signature | None, exception | None, state before, state after)."""
     import pyxel
@@ -953,6 +960,13 @@ def do_run(mode, sub, pipeline_seed, td, islands=1, fault=None):
                 res = pyxel.run_mode(cal, det, pipe, with_inherited_coords=True)
                 # (the simulated outputs are attached lazily: reading them is part of the seeded run)
                 sig = tree_sig(res, only=("/champion", "/best", "/simulated"))
+                if fault is None:
+                    # the SAME Calibration object run once more (fresh detector / pipeline): bit-identical
+                    res2 = pyxel.run_mode(cal, mk.detector("cmos", 3, 4), build_pipeline(sub), with_inherited_coords=True)
+                    sig2 = tree_sig(res2, only=("/champion", "/best", "/simulated"))
+                    if sig2 != sig:
+                        EXTRA.append(("not-reproducible", f"the same Calibration object run a second time gives {sig2}, the "
+                                                          f"first run gave {sig}"))
         else:
             raise KeyError(mode)
     except Exception as e:  # noqa: BLE001
@@ -1039,8 +1053,12 @@ def _run_history(case, td, reference=None):
         for code, what in _apply_history_op(op, mode, sub, pseed, td, islands, other):
             bad(code, what)
         n += 1
+    del EXTRA[:]
     sig, exc, b, a = do_run(mode, sub, pseed, td, islands)
     n += 1
+    for code, what in EXTRA:
+        bad(code, what)
+    del EXTRA[:]
     if exc is not None:
         raise RuntimeError(f"harness: fault-free run under test raised {type(exc).__name__}: {exc}") from exc
     if a != b:
